@@ -71,6 +71,9 @@ def parse_las(text):
             m = re.match(r'^(\S*)\s*(.*)$', rest)
             unit, value = m.group(1), m.group(2).strip()
             if sec == 'W':
+                if mnem in out['well'] and mnem in ('STRT', 'STOP', 'STEP'):
+                    out.setdefault('well_repeats', []).append(mnem)      # one start, stop and step per file: the first is kept
+                    continue
                 out['well'][mnem] = (unit, value)
             else:
                 out['curves'].append((mnem, unit))
@@ -515,6 +518,8 @@ def check_conversion(fmt, variant, opts, workdir, before=()):
         if rows and idx and len(rows) == len(idx):
             xs = [reduce_exact(p['channels'][0]['values'][f], 'first') for f in idx]
             whole = lis_whole_pass_well_section(p, sel) if fmt == 'lis' else {}
+            if las.get('well_repeats'):
+                bad.append(({'kind': 'well_section_repeats', 'format': fmt}, '%s: the well section gives %s more than once' % (path, sorted(set(las['well_repeats'])))))
             for key, exact in (('STRT', xs[0]), ('STOP', xs[-1])):
                 if key not in w:
                     bad.append(({'kind': 'well_missing', 'format': fmt, 'mnem': key}, '%s: no %s line in the well section (has %r)' % (path, key, sorted(w))))
